@@ -9,7 +9,7 @@ NEEDS = ["acc_close_to_zero_abs_tol"]
 
 
 def streams():
-    return [A.BatStream(), A.PVStream()]
+    return [A.BatStream(), A.PVStream(), A.BatAlgStream()]
 
 
 ASSUMPTIONS = [
@@ -34,8 +34,8 @@ META = {
                   "every outcome vector succeeded+failed+excess == requested, succeeded/failed sets are disjoint and cover "
                   "exactly the addressed components, failed power == sum of the set-points of the failed calls, succeeded "
                   "power == sum of the set-points of the successful calls; PV: sum(allocations)+remaining == requested and "
-                  "bound <= allocation <= 0. The model is tied to the code by running the real managers on all 5^n outcome "
-                  "vectors (n<=3 quick, n<=4 thorough) plus random cases and comparing every Result field and every "
+                  "bound <= allocation <= 0, and a non-negligible negative excess implies every usable inverter got exactly its bound. The model is tied to the code by running the real managers on all 5^n outcome "
+                  "vectors (n<=3 quick, n<=4 thorough) plus random cases (and set-points produced by the real distribution algorithm on C01-style component data) and comparing every Result field and every "
                   "set_power call exactly (rationals) inside Coq; the property is also judged directly on the Result "
                   "objects vs the calls the fake client recorded.",
     "level_note": "Battery set-points/remaining power are inputs (C01/C02 own the algorithm); the C01 identity is a "
